@@ -149,7 +149,7 @@ section constructions
 variable {α : Type}
 
 /-- the shared three-line head of every unary `update`, followed by the core -/
-def wrap [FloatLike α] (A : View α) (B : Core α) : View α where
+@[reducible] def wrap [FloatLike α] (A : View α) (B : Core α) : View α where
   σ := A.σ × B.σ
   init := (A.init, B.init)
   upd s x := do
@@ -166,7 +166,7 @@ def wrap [FloatLike α] (A : View α) (B : Core α) : View α where
   acc s := B.acc s.2
 
 /-- `Tanh`-style view: forwards the update, maps the child's `last()` -/
-def mapV [FloatLike α] (f : α → α) (A : View α) : View α where
+@[reducible] def mapV [FloatLike α] (f : α → α) (A : View α) : View α where
   σ := A.σ
   init := A.init
   upd s x := do assertFinite x; A.upd s x
@@ -177,7 +177,7 @@ def mapV [FloatLike α] (f : α → α) (A : View α) : View α where
   size := A.size
 
 /-- `Add`/`Subtract`/`Multiply`/`Divide`: forward to both children, combine on demand -/
-def binop [FloatLike α] (f : α → α → M α) (A B : View α) : View α where
+@[reducible] def binop [FloatLike α] (f : α → α → M α) (A B : View α) : View α where
   σ := A.σ × B.σ
   init := (A.init, B.init)
   upd s x := do
